@@ -119,6 +119,8 @@ def gen_pair(rng, kind="duel", fixed=None):
         k = (fh // ki + 1) * ki
         while k <= tip_h:
             mode = r.below(10)
+            if kind == "final" and bi == 0 and r.chance(2, 3):
+                mode = 0                      # the active chain is mostly unendorsed: only its finality protects it
             if mode == 0:
                 k += ki
                 continue                      # unpublished keystone
@@ -295,7 +297,7 @@ def plan_pairs(rng, n):
     kinds = []
     for i in range(n):
         m = i % 10
-        kinds.append("short" if m == 3 else "invalid" if m == 6 else "final" if m == 9 else "duel")
+        kinds.append("short" if m == 3 else "invalid" if m == 6 else "final" if m in (4, 9) else "duel")
     return [gen_pair(rng.fork(), k) for k in kinds]
 
 
@@ -312,7 +314,7 @@ def run_pairs(vlib, ctx, model, harness, pairs, tag, chunk=150, workers=4):
                 for j, l in enumerate(pairs[i].script):
                     f.write("p%d.%d %s\n" % (i, j, l))
         files.append(path)
-    res, orc, errs = {}, [], []
+    res, orc, errs, crashes = {}, [], [], []
 
     def one(path):
         return vlib.run_lines([harness], path, timeout=7200)
@@ -321,7 +323,7 @@ def run_pairs(vlib, ctx, model, harness, pairs, tag, chunk=150, workers=4):
             res.update(r)
             orc += o
             if rc != 0:
-                errs.append("rc=%d %s" % (rc, err[-300:]))
+                crashes.append("harness died rc=%d: %s" % (rc, " ".join(err[-400:].split())))
     # model: core as coded + proved spec sign, then the outer short-cuts around the core
     mpath = os.path.join(ctx.work, tag + "-e2e-model.txt")
     with open(mpath, "w") as f:
@@ -347,6 +349,17 @@ def run_pairs(vlib, ctx, model, harness, pairs, tag, chunk=150, workers=4):
             return ans(P.marks[name]) if name in P.marks else None
         rec = {"i": i, "kind": P.kind, "status": "ok", "why": "", "impl": None, "expected": None}
         out.append(rec)
+        if crashes and ans(0) is not None and ans(len(P.script) - 1) is None:
+            # the harness process died (assert / crash inside the library) while executing this history
+            rec["status"] = "oracle"
+            last = max(j for j in range(len(P.script)) if ans(j) is not None)
+            rec["why"] = "%s -- while executing line %d `%s` of this history" % (
+                crashes[0], last + 1, P.script[last + 1] if last + 1 < len(P.script) else "?")
+            rec["expected"] = 0
+            continue
+        if crashes and ans(0) is None:
+            rec["status"], rec["why"] = "skip", "not executed: the harness process died earlier"
+            continue
         mism = [(j, P.script[j], e, ans(j)) for j, e in enumerate(P.expect) if e is not None and ans(j) != e]
         if mism:
             rec["status"], rec["why"] = "skip", "registry answered differently from the generator: %r" % (mism[0],)
